@@ -97,6 +97,21 @@ def history_task(task, wdir, res):
                 res.violation("unscoped_not_union", {"shards": shards, "missing": bool(miss), "extra": bool(extra), "dup": dup > 0,
                                                      "after": "restart" if life else "first"},
                               f"lifetime {life}: missing={miss[:10]} extra={extra[:10]} dups={dup}", witness)
+            # the unscoped top-n (descending; the ascending top-k pre-selection is a listed C10 finding) is the top-n of the union:
+            # the newest events sit in memory on some shards while older ones are in segments of others
+            for lim in (1, 2, 3):
+                q = f"QUERY ev ORDER BY k DESC LIMIT {lim}"
+                rp = node.cmd(q)
+                res.evaluations += 1
+                gk = [r["k"] for r in rp.dicts()] if rp.ok and rp.rows is not None else None
+                want = sorted(all_k, reverse=True)[:lim]
+                if gk != want:
+                    st = node.meta("state")
+                    res.violation("unscoped_top_n_not_of_union", {"shards": shards, "after": "restart" if life else "first"},
+                                  f"lifetime {life}: {q} -> {gk} expected {want}; shard states "
+                                  f"(shard, live segments) {[(sh.get('shard'), len(sh.get('live', []))) for sh in st]}", witness)
+                else:
+                    res.add_set("top_n_layouts", f"{shards}:{lim}")
             for c, shape in ctxs:
                 ks = stored.get(c, [])
                 rs = by_ctx.get(c, [])
